@@ -23,11 +23,29 @@ def make_mixed(ctx, count, length):
         s = H.Scenario("m%d" % i, meta=dict(kind="mixed", frames=frames, cfg=cfg))
         s.add("FILL %d" % rng.choice([165, 90]))
         s.iface(0, **H.iface_kw(cfg)).glob(**G.global_kw(glob))
-        s.add("OPT sleep=0 txhex=0 txcap=0 ledger=1")
+        two = i % 2 == 1
+        if two:
+            # a second interface of the same core sees a little traffic first (its record sits behind ours in the core's list
+            # or in front of it - both orders occur across scenarios)
+            cfg2 = G.rand_cfg(rng, mtu=1500)
+            s.iface(1, **H.iface_kw(cfg2))
+        s.add("OPT sleep=0 txhex=0 txcap=0 ledger=0")
+        if two and rng.random() < 0.5:
+            s.frame(1, W.discover(net.mappers[1], 3, 3, [], tos=0))
+            s.frame(1, W.reset(net.mappers[1], tos=0))
+        s.add("OPT ledger=1")
+        s.add("MARK start")
         for fr in frames:
             s.frame(0, fr)
         s.frame(0, W.reset(net.mappers[0], tos=0))
         s.meta["frames"] = frames + [W.reset(net.mappers[0], tos=0)]
+        if two:
+            s.add("OPT ledger=0")
+            s.frame(1, W.discover(net.mappers[1], 3, 4, [], tos=0))
+            s.frame(1, W.probe(cfg2["mac"], G.rand_mac(rng), cfg2["mac"], G.rand_mac(rng)))
+            s.frame(1, W.reset(net.mappers[1], tos=0))
+            s.add("LEDGER")
+            s.meta["two"] = True
         scns.append(s)
     return scns
 
@@ -162,13 +180,24 @@ def monitor(scn, sobj, rep, sf, ck):
     leds = [i.led for i in scn.inputs if i.led is not None]
     if not leds:
         return
+    if kind == "mixed":
+        start = dict((lab, pos) for pos, lab in scn.marks).get("start", 0)
+        pre_live = 0
+        mixed_inputs = [i for i in scn.inputs[start:] if i.iface == 0]
+        if sobj.meta.get("two") and scn.clean and scn.ledgers:
+            fin = scn.ledgers[-1][1]
+            rep.count("two_interface_histories")
+            if fin[0] != 2:
+                rep.violation("C19:allocations-survive-reset:several-interfaces",
+                              "scenario %s: two interfaces, both reset at the end: %d allocations / %d bytes live (one record per "
+                              "interface expected)" % (scn.sid, fin[0], fin[1]), replay=None)
     rep.evaluations += len(leds)
     if kind == "baseline":
         rep.extra["baseline_after_reset"] = dict(live_allocations=leds[-1][0], live_bytes=leds[-1][1])
         stash(rep)["baseline"] = leds[-1][:2]
         return
     final = leds[-1]
-    if kind in ("mixed", "flood") and scn.clean:
+    if kind in ("mixed", "flood") and scn.clean and not sobj.meta.get("two"):
         stash(rep).setdefault("after_reset", []).append((scn.sid, final[0], final[1]))
     if kind == "flood":
         n = sobj.meta["n"]
@@ -236,10 +265,13 @@ def monitor(scn, sobj, rep, sf, ck):
     cfg = sobj.meta["cfg"]
     frames = sobj.meta["frames"]
     rx = RxBuf(cfg["mtu"], cfg["rxseed"])
-    prev = 0
+    start = dict((lab, pos) for pos, lab in scn.marks).get("start", 0)
+    pre = scn.inputs[start - 1] if start > 0 else None
+    prev = 1 if (pre is not None and sobj.meta.get("two") and start > 0) else 0     # the other interface's record, if it spoke first
+    first_prev = prev
     maxlive = 0
     kinds_seen = set()          # request kinds handled since the last topology Reset
-    for idx, inp in enumerate(scn.inputs):
+    for idx, inp in enumerate(scn.inputs[start:]):
         if idx >= len(frames) or inp.led is None:
             break
         buf = rx.load(frames[idx])
@@ -320,7 +352,8 @@ def run(ctx):
                 rep.violation("C19:allocations-survive-reset", "scenario %s: after the final topology Reset %d allocations / %d bytes are live; "
                               "an interface that only ever saw a Reset holds %d / %d" % (sid, cnt, byt, base[0], base[1]))
     c = rep.counters
-    rep.need("after_reset_checked", c.get("after_reset_checked", 0), ctx.n(40, 192))
+    rep.need("after_reset_checked", c.get("after_reset_checked", 0), ctx.n(20, 96))
+    rep.need("two_interface_histories", c.get("two_interface_histories", 0), ctx.n(15, 80))
     rep.need("repeat_checked", c.get("repeat_checked", 0), ctx.n(39, 390))
     rep.need("plateau_checked or violation", c.get("plateau_checked", 0) + sum(1 for k in rep.viol if k.startswith("C19:retained")), 2)
     rep.need("multi_iface_rounds", c.get("multi_iface_rounds", 0), ctx.n(1000, 50000))
